@@ -191,9 +191,9 @@ def mem_available_gb():
     return max(1.0, avail)
 
 def case_workers(texts):
-    """coqc needs roughly 0.3 GB plus 0.6 GB per MB of case text; never start more evaluators than fit."""
+    """coqc needs roughly 0.4 GB plus up to 1 GB per MB of case text; never start more evaluators than fit."""
     if not texts: return 1
-    per = 0.3 + max(len(t) for t in texts) / 1.0e6 * 0.6
+    per = 0.4 + max(len(t) for t in texts) / 1.0e6 * 1.0
     return max(1, min(NCPU, len(texts), int(mem_available_gb() * 0.7 / per)))
 
 def run_case_files(prop, texts, timeout=1500, stack_unlimited=True):
